@@ -143,6 +143,10 @@ __CPROVER_ensures((!PREC_ERR && I_(FN_SCALEPATH,0,1) != 0) ==> (EMPTYV(__CPROVER
 __CPROVER_ensures((!PREC_ERR && I_(FN_SCALEPATH,0,1) == 0) ==> (C_(FN_TRIM) == 1 && I_(FN_TRIM,0,0) == TOK(FN_SCALEPATH,0) && I_(FN_TRIM,0,1) == (long)is_open_path &&
    C_(FN_SCALEPATH) == 2 && I_(FN_SCALEPATH,1,0) == TOK(FN_TRIM,0) && C_(FN_FDIV) == 1 && IS_FDIV(0, 1.0, SCALE) && D_(FN_SCALEPATH,1,0) == FDIV_RET(0) &&
    __CPROVER_return_value.tok == TOK(FN_SCALEPATH,1)))
+#ifdef REQ_RANGECHECK
+/* C11: coordinates that leave the integer range after scaling must be reported — only ScalePaths range-checks, ScalePath does not */
+__CPROVER_ensures(!PREC_ERR ==> C_(FN_SCALEPATHS) >= 1)
+#endif
 __CPROVER_assigns(ASG_LOG)
 //@end
 void h_TrimCollinear_D(void) { PathD p; int prec; bool o; LOG_INIT(); TrimCollinear_D(p, prec, o); VF_CANARY(); }
@@ -155,3 +159,4 @@ void h_TrimCollinear_D(void) { PathD p; int prec; bool o; LOG_INIT(); TrimCollin
 //@run name=RectClip.PathsD entry=h_RectClip_D enforce=RectClip_D replace=CheckPrecisionRange,ScalePaths,ScaleRect,Rect_IsEmpty,RectClip64_ctor,RectClip64_Execute,vf_pow,vf_fdiv flags="--bounds-check --pointer-check" timeout=120
 //@run name=RectClipLines.PathsD entry=h_RectClipLines_D enforce=RectClipLines_D replace=CheckPrecisionRange,ScalePaths,ScaleRect,Rect_IsEmpty,RectClipLines64_ctor,RectClipLines64_Execute,vf_pow,vf_fdiv flags="--bounds-check --pointer-check" timeout=120
 //@run name=TrimCollinear.PathD entry=h_TrimCollinear_D enforce=TrimCollinear_D replace=CheckPrecisionRange,ScalePath,TrimCollinear,vf_pow,vf_fdiv flags="--bounds-check --pointer-check" timeout=120
+//@run name=TrimCollinear.PathD.F7 entry=h_TrimCollinear_D enforce=TrimCollinear_D replace=CheckPrecisionRange,ScalePath,ScalePaths,TrimCollinear,vf_pow,vf_fdiv defs=REQ_RANGECHECK flags="--bounds-check --pointer-check" timeout=120 expect=fail:postcondition\.6 known=F7 props=C11
